@@ -4,6 +4,16 @@ V = os.path.dirname(os.path.dirname(os.path.abspath(__file__)))
 props = [json.loads(l) for l in open(os.path.join(V, "properties.jsonl"))]
 
 CLAIMED = {
+    "C05": dict(
+        text="Coq theorems about the model of SimulatedOrder.place for every book (any levels, gaps, empty sides), price, size and tie-break: an ordinary order's arrival fragments are exactly a prefix of the opposing ladder, at the limit or better, level by level no larger than offered, in total <= its size; fill-or-kill ends with nothing remaining and 0 or >= min-fill matched, its kept VWAP (2 dp, as the exchange reports it) satisfies the limit; best-price-execution off + priced through the best => lapse with no fill; passive fills are at the order's own limit. Tie to code: the whole simulation model (Sim.v/SimLoop.v) is compared observation-by-observation with the real FlumineSimulation on generated scenarios (evaluated in Coq, both tie-breaks), and an independent checker of the property runs on the implementation's fragments.",
+        note="Trusted: Coq kernel + vm_compute; harness/impl/simlib.py (synthetic Betfair stream files -> real FlumineSimulation, observation by a scripted strategy); exact-decimal model of the float arithmetic; starting-price fills are outside the limit clause (C04). Print Assumptions: closed under the global context.",
+        technique="Coq proof (induction over the ladder, lia) + differential correspondence of the simulation model evaluated in Coq",
+        ref="DESIGN.md §5 C05"),
+    "C18": dict(
+        text="Coq theorems over the model of MaxTransactionCount for every event list: totals = sum of all adds whatever requests interleave; any permutation of a batch of concurrent adds gives the same counters; restart iff the request falls in another clock hour (day boundaries, clock going backwards); hourly = adds since the restart; once over the limit every non-forced request in that clock hour is refused whatever adds follow; first request in a new hour restarts from zero and passes; no limit / forced never blocked; count sites place/cancel/update/replace. Tie to code: random histories on real controls + clients (simulated and patched clock, 1-3 clients), model and a state-free property checker evaluated in Coq.",
+        note="Trusted: threading.Lock atomicity (tested with 16 threads; the model is atomic per handler - partial for schedules inside a handler); datetime hour arithmetic modelled as floor(ms/3600000) and checked by correspondence across hour/day/year boundaries. The execution-layer count sites are tied to the code by the simulation correspondence (C04/C05 families compare client.transaction_count_total) and C12.",
+        technique="Coq proof (induction over event lists, Permutation) + differential correspondence evaluated in Coq",
+        ref="DESIGN.md §5 C18"),
     "C16": dict(
         text="Coq theorems for every list of orders and every tie-break of round(): get_exposures' win/lose figures are within one penny (two roundings) of - and on the penny grid equal to - the brute-force worst case over EVERY subset of open orders filling at their limit (min over the cube = sum of per-order minima, by induction); market_exposure = sum of losing figures + k smallest differences, proved to be a lower bound for every k-subset of winners and attained by one (exchange argument over Permutation/StronglySorted); pending/refused statuses left out (PENDING_STATUS regenerated from source); exclusion/new-order as-if-removed/added for distinct orders, with the exclusion==new instance stated as refuted (finding F-C01-1). Tie to code: the three real Blotter functions on real orders vs. the model evaluated in Coq with both tie-breaks, plus the brute-force property checker evaluated on the implementation's own figures.",
         note="Trusted: Coq kernel + vm_compute; harness/impl/c16.py builds real BetfairOrder/Blotter objects with simulated buckets set directly; exact-decimal model of float sums (equality demanded only when both tie-breaks agree). Print Assumptions: closed under the global context.",
